@@ -50,7 +50,7 @@ def points(lo, hi):
 def strat():
     from hypothesis import strategies as st
     idch = st.sampled_from("abcrl0123456789_-.") | st.sampled_from(["é", "ř", "中"])
-    ident = st.lists(idch, min_size=1, max_size=6).map("".join)
+    ident = st.lists(idch, min_size=1, max_size=6).map("".join) | st.sampled_from(["id_1", "id_r", "id_", "r1-l001", "id_id_2"])
     height = st.one_of(st.integers(0, 50000).map(lambda k: k / 100.0), st.integers(0, 5000).map(lambda k: k / 10.0 + 0.05),
                        st.floats(0, 500, allow_nan=False, width=32).map(float))
 
@@ -59,13 +59,14 @@ def strat():
         pid = draw(st.sampled_from(["page.jpg", "a b.c.png", "scan 001", "ř/ž.tif", "x"]) | st.text(
             st.characters(min_codepoint=0x20, max_codepoint=0x2FFF, blacklist_categories=("Cs", "Cc")), min_size=1, max_size=8))
         size = (draw(st.integers(0, 5000)), draw(st.integers(0, 5000)))
-        n_reg = draw(st.integers(0, 5))
-        rids = draw(st.lists(ident, min_size=n_reg, max_size=n_reg, unique=True))
+        many = draw(st.integers(0, 5)) == 0        # pages with many (small) regions: partial reading orders leave several unlisted
+        n_reg = draw(st.integers(8, 24)) if many else draw(st.integers(0, 5))
+        rids = draw(st.lists(ident, min_size=n_reg, max_size=n_reg, unique=True)) if not many else ["m%02d" % k for k in range(n_reg)]
         used = set()
         regions = []
         for rid in rids:
             lines = []
-            for _ in range(draw(st.integers(0, 4))):
+            for _ in range(draw(st.integers(0, 4)) if not many else draw(st.integers(0, 1))):
                 lid = draw(ident.filter(lambda s: s not in used))
                 used.add(lid)
                 tr = draw(st.one_of(st.none(), st.just(""), xml_text()))
